@@ -369,7 +369,14 @@ func runCow(r *Run) {
 				pool = append(pool, q)
 			}
 		}
-		runCowPool(r, p.name, &cowGen{Pool: pool, MaxRoutes: 3, MaxSnaps: pick(r, 1, 2), MaxHist: pick(r, 60, 60), Variant: "none"}, rng)
+		runCowPool(r, p.name, &cowGen{Pool: pool, MaxRoutes: 3, MaxSnaps: 1, MaxHist: 60, Variant: "none"}, rng)
+	}
+	if !r.quick() {
+		// two snapshots alive at once: about a million states of the mechanism, decided by TLC alone (no replay)
+		g := &cowGen{Pool: cowPools[0].pool, MaxRoutes: 3, MaxSnaps: 2, MaxHist: 60, Variant: "none"}
+		res := r.runTLC(tlcOpts{Module: "MC_Cow", Tag: "-two-snapshots", Gen: map[string]string{"Gen_Cow.tla": g.tla()}, Timeout: 90 * time.Minute})
+		res.mustClean("MC_Cow (two snapshots)")
+		r.addCov("cow_model_states_two_snapshots", res.Distinct)
 	}
 	r.assumption("the copy-on-write model covers one method tree; the roots slice of the transaction (one entry per method, copied on every root change) is not modelled")
 }
